@@ -2416,3 +2416,38 @@ def and_operator_is_the_intersection(ctx):
             bad is None,
             (bad or "") + ": a method declared on `(A | B) & H` is no longer applicable to an A (or B) that satisfies H",
         )
+
+
+# ---------------------------------------------------------------------------------------- what makes two signatures equal
+def signature_identity_ignores_parameter_names(ctx):
+    """Two methods with the same parameter types are the same signature - that is what makes a re-registration or an
+    override replace the earlier method - whatever their parameters are called: the per-argument records (which carry
+    the names) are excluded from the equality and hash the signature record's dataclass generates."""
+    from . import sigexec
+
+    repo = ctx.repo
+    S = A.signature_class(repo)
+    ex, (kind, what), made = sigexec.run(ctx, "function")
+    if kind != "built":
+        raise AnalysisError(f"{S.key}: extraction does not build a signature on the reference function")
+    carriers = [k for k, v in made.items() if isinstance(v, (list, tuple)) and v and all(getattr(x, "kind", None) == "arginfo" for x in v)]
+    ctx.require(len(carriers) == 1, f"{S.key}: the field holding the per-argument records was not found")
+    fld = carriers[0]
+    decl = [st for st in S.node.body if isinstance(st, ast.AnnAssign) and isinstance(st.target, ast.Name) and st.target.id == fld]
+    ctx.require(len(decl) == 1, f"{S.key}: field `{fld}` is not declared in the class body")
+    v = decl[0].value
+    excluded = isinstance(v, ast.Call) and call_name(v) in ("field", "dataclasses.field") and any(k.arg == "compare" and isinstance(k.value, ast.Constant) and k.value.value is False for k in v.keywords)
+    # an explicit __eq__ would take over from the generated one
+    own_eq = S.methods.get("__eq__")
+    if own_eq is not None:
+        excluded = fld not in _attrs_read(own_eq)
+    for m in S.methods.values():
+        ctx.touch(m)
+        break
+    ctx.ob(
+        f"{S.key}:{fld}-not-compared",
+        f"{S.module.rel}:{decl[0].lineno}",
+        f"the per-argument records (`{fld}`, with the parameters' names) take no part in signature equality",
+        excluded,
+        f"`{fld}` is compared: a method that re-defines an existing signature under another parameter name (`conv(self, x: int)` / `conv(self, number: int)`) no longer replaces the earlier one - both stay registered at the same rank and the call is ambiguous",
+    )
